@@ -54,7 +54,7 @@ LEVEL_TEXT = ("Machine-checked theorems (Coq 8.16, closed under the global conte
               "level strictly increase in argv order.  Non-vacuity examples exercise every item kind and spelling.")
 LEVEL_NOTE = ("Outside the conventional class (-- directly after an open multi-valued positional run, dont_delimit_trailing_values, last, trailing_var_arg, terminators, require_equals, hyphen "
               "values, low-index multiples, allow_missing_positional, flag/external subcommands, ignore_errors, "
-              "args_conflicts_with_subcommands, non-ASCII short names) conservation is checked by the python un-parser / model "
+              "args_conflicts_with_subcommands) conservation is checked by the python un-parser / model "
               "comparison only; conv is stated on the built command (decidable by computation); the composition with the global-"
               "value merge is proved only for trees without globals (the merge itself is C09's).  Trusted: Coq kernel, extraction, "
               "OCaml driver, Rust harness, generators.")
@@ -434,14 +434,17 @@ def coq_example_cases():
         arg(b"m", short="m", long=b"mu", action="append", num=(1, 3), delim=","),
         arg(b"y", short="y", long=b"yy", action="set", num=(0, 1), dmissing=[b"d"]),
         arg(b"f"),
-        arg(b"r", num=(1, None))], "groups": [], "subs": [], "settings": [], "aliases": []}
-    toks1 = [b"--qu", b"F", b"-vvoAB", b"--opt===", b"--mu", b"A", b"B,C", b"-vm", b"A", b"-s=", b"R", b"S", b"--yy", b"-v", b"T"]
+        arg(b"r", num=(1, None)),
+        arg(b"e", short="\u00e9", action="settrue")], "groups": [], "subs": [], "settings": [], "aliases": []}
+    toks1 = [b"--qu", b"F", b"-vvoAB", b"--opt===", b"--mu", b"A", b"B,C", b"-vm", b"A", b"-s=", b"R", b"S", b"--yy", b"-v", b"T",
+             "-\u00e9".encode()]
     exp1 = collections.OrderedDict([
         (b"q", {"occ": [[b"true"]], "idx": [1]}), (b"f", {"occ": [[b"F"]], "idx": [2]}),
         (b"o", {"occ": [[b"AB"], [b"=="]], "idx": [6, 8]}),
         (b"m", {"occ": [[b"A", b"B", b"C"], [b"A"]], "idx": [10, 11, 12, 15]}),
         (b"s", {"occ": [[b""]], "idx": [17]}), (b"r", {"occ": [[b"R", b"S"], [b"T"]], "idx": [18, 19, 23]}),
-        (b"y", {"occ": [[b"d"]], "idx": [21]}), (b"v", {"occ": [[b"4"]], "idx": [22]})])
+        (b"y", {"occ": [[b"d"]], "idx": [21]}), (b"v", {"occ": [[b"4"]], "idx": [22]}),
+        (b"e", {"occ": [[b"true"]], "idx": [24]})])
     run = {"name": b"run", "aliases": [(b"go", True)], "args": [
         arg(b"x", short="x", action="settrue"), arg(b"n", long=b"name", action="set"), arg(b"f")],
         "groups": [], "subs": [], "settings": []}
